@@ -131,6 +131,11 @@ SCAFS += [
     Scaf('CompoundAmount', '2000-01-01 *\n  Assets:A  1 USD {1 # 2 EUR}\n  Assets:B', lambda f: f.raw_directives[1].raw_postings[0].raw_cost.raw_compound_amount_comp),
     Scaf('MetaItemBare', '2000-01-01 close Assets:A\n  kk:\n  k2: NULL ; c', lambda f: f.raw_directives[1].raw_meta[0]),
 ]
+# a meta item for every kind of current raw value: assigning a plain value must replace it whatever it was
+for _kind, _raw in (('Acc', 'Assets:Foo'), ('Cur', 'USD'), ('Tag', '#foo'), ('Str', '"s"'), ('Date', '2000-02-03'), ('Bool', 'FALSE'), ('Null', 'NULL'),
+                    ('Amount', '1 USD'), ('Num', '1+2'), ('Neg', '-3')):
+    SCAFS.append(Scaf('MetaItem' + _kind, '2000-01-01 close Assets:A\n  kk: %s\n  k2: 1' % _raw, lambda f: f.raw_directives[1].raw_meta[0]))
+    SCAFS.append(Scaf('Pushmeta' + _kind, 'pushmeta kk: %s' % _raw, _D1))
 SCAF = {s.name: s for s in SCAFS}
 
 
